@@ -318,3 +318,31 @@ Section AbstractMonitor.
     | s :: r => let '(ok, m) := mrun c (safe0 c s) (mbit0 c s) s r in ok && (if is_landmark c then m else true)
     end.
 End AbstractMonitor.
+
+(* ------------------------------------------------------------------ the specification for `always` constraints *)
+(* every always-constraint body holds in the state *)
+Definition AH (P : problem) (C : list expr) (s : state) : bool :=
+  forallb (fun c => match c with EAlways phi => holds false (mk_interp P s []) phi | _ => true end) C.
+
+(* run the ORIGINAL problem and stop as soon as a visited state violates an always body *)
+Fixpoint run_ah (P : problem) (C : list expr) (s : state) (pi : list (N * list value)) : option state :=
+  match pi with
+  | [] => Some s
+  | (aid, args) :: r =>
+      match lookup_action P aid with
+      | None => None
+      | Some a => match spec_step false P s a args with
+                  | Some t => if AH P C t then run_ah P C t r else None
+                  | None => None
+                  end
+      end
+  end.
+
+(* the plan is executable in the original problem, every state it visits after the first satisfies every always body,
+   the goals hold at the end *)
+Definition always_valid (P : problem) (C : list expr) (s0 : state) (pi : list (N * list value)) : bool :=
+  match run_ah P C s0 pi with Some t => goals_hold false P t | None => false end.
+
+(* all constraints are `always phi` with phi in the regression fragment *)
+Definition always_only (P : problem) (C : list expr) : bool :=
+  forallb (fun c => match c with EAlways phi => gform phi && gbool P phi | _ => false end) C.
